@@ -28,6 +28,9 @@ import (
 
 var typeIDs = []string{"integer", "float", "string", "bool", "ref", "list"}
 
+// the other type ids of the schema language: each as the only property and next to an integer property
+var moreTypeIDs = []string{"pattern", "enum_integer", "enum_string", "map", "object", "one_of_string", "one_of_int", "scope", "any"}
+
 type propT struct {
 	Name string
 	Type string
@@ -102,6 +105,21 @@ func (d doc) yaml() string {
 	return b.String()
 }
 
+// emitsMapKeyword: some object that is not ignored has a property of type map.
+func emitsMapKeyword(d doc, args []string) bool {
+	for _, o := range d.Objects {
+		if len(args) > 1 && args[1] == o.Name {
+			continue
+		}
+		for _, p := range o.Props {
+			if p.Type == "map" {
+				return true
+			}
+		}
+	}
+	return false
+}
+
 func sameBody(a, b propT) bool {
 	return a.Type == b.Type && a.Ref == b.Ref && len(a.TypeExtra) == 0 && len(b.TypeExtra) == 0 && len(a.PropExtra) == 0 && len(b.PropExtra) == 0
 }
@@ -126,6 +144,14 @@ func propVariants(names []string, other string) [][]propT {
 	return out
 }
 
+func moreVariants(names []string) [][]propT {
+	var out [][]propT
+	for _, t := range moreTypeIDs {
+		out = append(out, []propT{{Name: names[0], Type: t}}, []propT{{Name: names[0], Type: "integer"}, {Name: names[1], Type: t}})
+	}
+	return out
+}
+
 func docs() []doc {
 	out := []doc{{}}
 	for _, pa := range propVariants([]string{"one", "two"}, "Beta") {
@@ -135,6 +161,10 @@ func docs() []doc {
 		for _, pb := range propVariants([]string{"uno", "dos"}, "alpha") {
 			out = append(out, doc{Objects: []objT{{"alpha", pa}, {"beta", pb}}})
 		}
+	}
+	// every other type id of the schema language
+	for _, pa := range moreVariants([]string{"one", "two"}) {
+		out = append(out, doc{Objects: []objT{{"alpha", pa}}}, doc{Objects: []objT{{"alpha", pa}, {"beta", []propT{{Name: "uno", Type: "ref", Ref: "alpha"}}}}})
 	}
 	// full-featured property bodies: everything a schema document may say about a property besides its type id
 	rich := []propT{
@@ -369,7 +399,12 @@ func checkCase(drv *driver, di int, d doc, args []string, res *ux.Result) error 
 	var outputs []dOut
 	for _, o := range ans.Outcomes {
 		if o.Panic != "" {
-			res.Add(fmt.Sprintf("generator panics in %s: %s", lib.PanicSite(o.Stack, "main.", "codegen"), lib.PanicClass(o.Panic)), desc+"\npanic: "+o.Panic+"\nmap orders: "+o.Choices, rp)
+			sig := fmt.Sprintf("generator panics in %s: %s", lib.PanicSite(o.Stack, "main.", "codegen"), lib.PanicClass(o.Panic))
+			if emitsMapKeyword(d, args) && strings.Contains(o.Panic, "expected '['") {
+				// the cause is named, not the position: the type id "map" is written out as a Go field type, and map is a keyword
+				sig = "generator panics on a property of type map: the type id is emitted as the field's Go type, and 'map' alone is not a type"
+			}
+			res.Add(sig, desc+"\npanic: "+o.Panic+"\nmap orders: "+o.Choices, rp)
 			continue
 		}
 		outputs = append(outputs, o)
